@@ -128,6 +128,7 @@ func genDispatch(c *ctx) string {
 	b.WriteString("def objectUnchecked : Bool := " + objectArmForm(c) + "\n")
 	b.WriteString("def argsInPlace : Bool := " + argsInPlaceForm(c) + "\n")
 	b.WriteString("def argsSortedOnce : Bool := " + argsSortedOnceForm(c) + "\n")
+	b.WriteString("def condByIdentity : Bool := " + condByIdentityForm(c) + "\n")
 	b.WriteString("def reflectOptionalRefused : Bool := " + reflectOptionalForm(c) + "\n")
 	b.WriteString("def inputDefaultsRaw : Bool := " + inputValidateForm(c) + "\n")
 	b.WriteString("def listNotCoerced : Bool := " + lnc + "\n")
@@ -269,6 +270,38 @@ func argsSortedOnceForm(c *ctx) string {
 		return "false"
 	}
 	return unknown("argument check of a request field", c.pos(rf))
+}
+
+// condByIdentityForm (D14): does a fragment apply only when its type condition *is* the type the selections are
+// resolved on, with an interface-typed field resolved on the interface itself (so `... on Obj` never applies there
+// and __typename names the interface); or is an interface-typed field resolved on the object type bound to the Go
+// type of the value, and does a fragment apply when its condition is that type, an interface it implements or a
+// union it is a member of?
+func condByIdentityForm(c *ctx) string {
+	norm := func(n ast.Node) string {
+		t := regexp.MustCompile(`(?m)//.*$`).ReplaceAllString(c.src(n), "")
+		return regexp.MustCompile(`\s+`).ReplaceAllString(t, " ")
+	}
+	rs, ri, rf := c.funcs["Root.resolve"], c.funcs["Root.resolveInline"], c.funcs["Root.resolveFragRef"]
+	if rs == nil || ri == nil || rf == nil {
+		return unknown("resolve / resolveInline / resolveFragRef", "resolve.go")
+	}
+	r, i, f := norm(rs.Body), norm(ri.Body), norm(rf.Body)
+	fa, im := c.funcs["fragmentApplies"], c.funcs["Object.implements"]
+	switch {
+	case fa == nil && strings.Contains(r, "case *Object, *Schema, *Interface, *uuSchema: result, ea = root.resolveFieldSels(obj, vars, field, t, depth-1)") &&
+		strings.Contains(i, "if sel.Condition == nil || sel.Condition == t { ea = root.resolveSels(obj, vars, sel.Sels, t, result, depth) }") &&
+		strings.Contains(f, "if sel.Fragment.Condition == nil || sel.Fragment.Condition == t { ea = root.resolveSels(obj, vars, sel.Fragment.Sels, t, result, depth)"):
+		return "true"
+	case fa != nil && im != nil &&
+		strings.Contains(r, "case *Object, *Schema, *uuSchema: result, ea = root.resolveFieldSels(obj, vars, field, t, depth-1) case *Interface: if ot, _ := root.getReflectType(reflect.TypeOf(obj)).(*Object); ot != nil && ot.implements(tt) { t = ot } result, ea = root.resolveFieldSels(obj, vars, field, t, depth-1)") &&
+		strings.Contains(i, "if fragmentApplies(sel.Condition, t) { ea = root.resolveSels(obj, vars, sel.Sels, t, result, depth) }") &&
+		strings.Contains(f, "if fragmentApplies(sel.Fragment.Condition, t) { ea = root.resolveSels(obj, vars, sel.Fragment.Sels, t, result, depth)") &&
+		norm(fa.Body) == "{ if cond == nil || cond == t { return true } if ot, _ := t.(*Object); ot != nil { switch tc := cond.(type) { case *Interface: return ot.implements(tc) case *Union: for _, m := range tc.Members { if m == t { return true } } } } return false }" &&
+		norm(im.Body) == "{ for _, i := range t.Interfaces { if i == it { return true } } return false }":
+		return "false"
+	}
+	return unknown("fragment type condition test", c.pos(ri))
 }
 
 // reflectOptionalForm (D94): is an optional argument that is left out (or null) refused by checkReflectArgs
